@@ -19,7 +19,9 @@ N = {"quick": 900, "thorough": 14000, "search": 2500}
 
 
 def gen_cases(rng, tier):
-    return [PC.gen_history(rng, rng.choice([6, 12, 20, 30, 45]), "c02") for _ in range(N[tier])]
+    from pv import core
+    cases = [PC.gen_history(rng, rng.choice([6, 12, 20, 30, 45]), "c02") for _ in range(N[tier])]
+    return core.assign_pyflags(cases, rng, modes=(("-O",), ("-O",), ("-OO",)), frac=0.12)
 
 
 def judge(case, coq, impl):
